@@ -13,12 +13,15 @@ class P(vlib.Prop):
             "what was finding C01-F1 (fixed by c03e0c0): seven install_if universes (flat, chains three deep, several triggers, packages before their triggers) resolved 60/400 times in process "
             "and 8/24 identical CLI builds of one of them - every observed install order must EQUAL the model's one order and all runs and digests must agree. canon stage: the canonicaliser, build-date, install-schedule and install_if models against the "
             "real functions (SetWorld, build.New, BuildImageFromLayers, GenerateIndex, tarfs ReadDir, groupByOriginAndSize, GetBuildDateEpoch, "
-            "InstallPackages behind a server that releases packages in a scripted order, the resolver). A build case is non-trivial when it is not "
+            "InstallPackages behind a server that releases packages in a scripted order, the resolver; groupByOriginAndSize is also called six more times per case on reshuffled input - one answer). "
+            "matrix also builds a two-architecture configuration whose newest package date differs per architecture, without SOURCE_DATE_EPOCH, while one architecture's packages are served late (each in turn). "
+            "baseimage stage: the repository's image-on-a-base-image test configuration through build.New + BuildLayers, twice per architecture under different temp directories (judged in Go). A build case is non-trivial when it is not "
             "the reference of its group; distinct = distinct command lines / case terms.")
     stages = (
         dict(name="matrix", cmd="c01", args=lambda t, s: ["-stage", "matrix"], timeout=3400),
         dict(name="installif", cmd="c01", args=lambda t, s: ["-stage", "installif"]),
         dict(name="canon", cmd="c01", args=lambda t, s: ["-stage", "canon"]),
+        dict(name="baseimage", cmd="c01", args=lambda t, s: ["-stage", "baseimage"]),
     )
     watch = ("pkg/build/*.go", "pkg/build/oci/*.go", "pkg/tarfs/fs.go", "pkg/apk/apk/world.go", "pkg/apk/apk/installed.go",
              "pkg/apk/apk/implementation.go", "pkg/apk/apk/repo.go", "pkg/sbom/generator/spdx/spdx.go", "internal/cli/build.go")
